@@ -6,6 +6,7 @@ PROP = "C04"
 MODEL_VO = ["theories/Model/Codec.vo"]
 COQ_IMPORTS = "From CV Require Import Model.Codec."
 COQ_RUN = "run_codec"
+ANCHORS = [("canopen.objectdictionary", "ODVariable.encode_raw"), ("canopen.objectdictionary", "ODVariable.decode_raw"), ("canopen.objectdictionary", "ODVariable.__len__"), ("canopen.objectdictionary.datatypes", "IntegerN"), ("canopen.objectdictionary.datatypes", "UnsignedN")]
 COQ_CASE_TYPE = "codec_case"
 RULE = ("cases = (type, value) encodes, (type, bytes) decodes, decode-then-encode, text round trips, REAL bit patterns; "
         "values at range ends +-2, powers of two +-2, 0, +-1, seeded random, just outside the range; byte strings of "
